@@ -7,7 +7,7 @@ import os
 from ..cfg import CFG
 from ..loops import dotted
 from ..nf import NF, Scope, Poly, parse_expr
-from ..repo import Repo, loc, short, AnalysisError, positional_params, param_names, ModuleInfo
+from ..repo import Repo, loc, short, AnalysisError, positional_params, param_names, ModuleInfo, bind_call
 from ..shapes import ShapeEngine, Fn, doc_shapes
 
 EXPLANATION = (
@@ -182,14 +182,53 @@ def r4_bootstraps(ck, repo, nf):
     call = next((c for n in cfg.nodes if n.ast is not None and n.kind == "stmt" for c in ast.walk(n.ast) if isinstance(c, ast.Call) and dotted(c.func) == "train_epoch"), None)
     ck.need(call is not None, f"{q}: train_epoch call not found")
     at = cfg.node_of(call).id
-    args = [dotted(a) for a in call.args]
-    ck.ob("R4-bootstraps", q, "train-epoch-arguments", args == ["model", "optimizer", "X", "Y", "batched_indices"], f"train_epoch({', '.join(args)})", "" if args == ["model", "optimizer", "X", "Y", "batched_indices"] else "members must be trained on (X, Y) through the batched bootstrap indices", loc(mi, call))
+    tef = repo.func(PE + "train_epoch")
+    tb = bind_call(tef, call)
+    tp = positional_params(tef)
+    got_args = {k: (nf.poly(v, sc, at).canon() if v is not None and not isinstance(v, list) else None) for k, v in tb.items()}
+    ok_args = len(tp) >= 5 and [got_args.get(tp[i]) for i in range(4)] == ["model", "optimizer", "X", "Y"] and isinstance(tb.get(tp[4]), ast.Name)
+    if not ok_args and not isinstance(tb.get(tp[4]) if len(tp) > 4 else None, ast.Name):
+        raise AnalysisError(f"{q}: the index argument of train_epoch is not a variable (unrecognised idiom)")
+    ck.ob("R4-bootstraps", q, "train-epoch-arguments", ok_args, f"train_epoch({got_args})", "" if ok_args else "members must be trained on (X, Y) through the batched bootstrap indices", loc(mi, call))
+    bname = tb[tp[4]].id
     # batched indices: reshape / transpose of the (possibly truncated) permutation
-    bi = cfg.defs_of(at, "batched_indices")
-    ck.need(len(bi) == 1, f"{q}: batched_indices has {len(bi)} definitions")
+    bi = cfg.defs_of(at, bname)
+    ck.need(len(bi) == 1 and bi[0].value is not None, f"{q}: `{bname}` has {len(bi)} definitions")
     btxt = ast.unparse(bi[0].value)
-    ok = btxt == "shuffled_indices.reshape(model.n_ensemble, batch_size, -1).transpose([2, 0, 1])"
-    ck.ob("R4-bootstraps", q, "member-axis-preserved", ok, f"batched_indices = {btxt}", "" if ok else "must be reshape(n_ensemble, batch_size, -1).transpose([2, 0, 1]): the member axis must never be merged with another axis, otherwise members see each other's bootstrap", loc(mi, bi[0].value))
+    bsc = Scope(cfg, mi, _env(f), q)
+    bsc.opaque_names = {"shuffled_indices"}
+    # structural reading of  <perm>.reshape(d0, d1, d2).transpose(p):  the member axis stays the leading reshape axis (never merged with
+    # another axis), is moved to position 1, the scanned axis 0 is the batch number and the last axis has batch_size entries
+    bv = bi[0].value
+    okm, whym = None, ""
+    tr, rs = None, None
+    if isinstance(bv, ast.Call) and isinstance(bv.func, ast.Attribute) and bv.func.attr in ("transpose",) and isinstance(bv.func.value, ast.Call) and isinstance(bv.func.value.func, ast.Attribute) and bv.func.value.func.attr == "reshape":
+        tr, rs = bv, bv.func.value
+    elif isinstance(bv, ast.Call) and dotted(bv.func) in ("jnp.transpose", "jnp.permute_dims") and bv.args and isinstance(bv.args[0], ast.Call) and isinstance(bv.args[0].func, ast.Attribute) and bv.args[0].func.attr == "reshape":
+        tr, rs = bv, bv.args[0]
+    if tr is not None:
+        dims = [nf.poly(a, bsc, bi[0].node).canon() for a in (rs.args if not (len(rs.args) == 1 and isinstance(rs.args[0], (ast.Tuple, ast.List))) else rs.args[0].elts)]
+        pargs = tr.args[1:] if dotted(tr.func) in ("jnp.transpose", "jnp.permute_dims") else tr.args
+        if len(pargs) == 1 and isinstance(pargs[0], (ast.Tuple, ast.List)):
+            pargs = pargs[0].elts
+        try:
+            perm = [ast.literal_eval(a) for a in pargs]
+        except Exception:
+            perm = None
+        if perm is not None and len(dims) == 3 and len(perm) == 3:
+            lead_ok = dims[0] in ("model.n_ensemble", "n_ensemble")
+            okm = lead_ok and perm[1] == 0 and dims[perm[2]] == "batch_size" and dims[perm[0]] == "-1"
+            if not lead_ok:
+                whym = f"the leading reshape axis is `{dims[0]}`, not the member axis: bootstrap rows of different members are merged, members see each other's samples"
+            elif not okm:
+                whym = f"after reshape{tuple(dims)} and transpose{tuple(perm)} the layout is not (batch number, member, batch_size)"
+    if okm is None and isinstance(bv, ast.Call) and isinstance(bv.func, ast.Attribute) and bv.func.attr == "reshape":
+        dims = [nf.poly(a, bsc, bi[0].node).canon() for a in (bv.args if not (len(bv.args) == 1 and isinstance(bv.args[0], (ast.Tuple, ast.List))) else bv.args[0].elts)]
+        if dims and dims[0] not in ("model.n_ensemble", "n_ensemble"):
+            okm, whym = False, f"reshape{tuple(dims)} of the (member, sample) index matrix does not keep the member axis leading: rows of different members are merged into one batch axis, members see each other's bootstrap samples"
+    if okm is None:
+        raise AnalysisError(f"{q}: batching of the bootstrap indices `{btxt[:80]}` is not a reshape + transpose this check can read")
+    ck.ob("R4-bootstraps", q, "member-axis-preserved", okm, f"{bname} = {btxt}", whym, loc(mi, bi[0].value))
     sdefs = list(cfg.defs_of(bi[0].node, "shuffled_indices"))
     for d in list(sdefs):  # an unconditional truncation hides the permutation it was applied to
         if not (isinstance(d.value, ast.Call) and dotted(d.value.func).endswith("random.permutation")):
@@ -213,9 +252,15 @@ def r4_bootstraps(ck, repo, nf):
             isc = Scope(cfg, mi, {}, q)
             isc.opaque_names = {"bootstrap_indices", "batch_size", "shuffled_indices"}
             upc = nf.poly(up, isc, d.node).canon() if up is not None else ""
-            guards = [(t, tv) for b, lab in cfg.control_deps(d.node) if cfg.nodes[b].kind == "test" for t, tv in cfg._lits(cfg.nodes[b].ast.test, lab, b)]
+            from ..sem import guard_literals
             neg = upc == "-mod(bootstrap_indices.shape[1], batch_size)"
-            guarded = any(tv and isinstance(up, ast.Name) and t == up.id for t, tv in guards)
+            r_c = "mod(bootstrap_indices.shape[1], batch_size)"
+            gsc_lits = []
+            for b_, lab_ in cfg.control_deps(d.node):
+                if cfg.nodes[b_].kind == "test" and isinstance(cfg.nodes[b_].ast, ast.If):
+                    c_ = nf.poly(cfg.nodes[b_].ast.test, isc, b_).canon()
+                    gsc_lits.append(c_ if lab_ else f"not({c_})")
+            guarded = any(l in (r_c, upc, f"NotEq(0, {r_c})", f"NotEq(0, {upc})", f"Lt(0, {r_c})", f"LtE(1, {r_c})", f"Lt({upc}, 0)") for l in gsc_lits)
             pos_forms = [nf.poly(parse_expr(t), usc, None).canon() for t in ("bootstrap_indices.shape[1] - bootstrap_indices.shape[1] % batch_size", "(bootstrap_indices.shape[1] // batch_size) * batch_size")]
             pos_ok = upc in pos_forms
             ok_t = (neg and guarded) or pos_ok
@@ -227,15 +272,37 @@ def r4_bootstraps(ck, repo, nf):
         why = "no truncation: reshape(n_ensemble, batch_size, -1) fails or mixes rows when the bootstrap size is not a multiple of batch_size"
     ck.ob("R4-bootstraps", q, "truncate-to-complete-batches", ok_t, f"{[short(d.value, 60) for d in trunc]}", "" if ok_t else why, loc(mi, f))
     bd = [d for d in cfg.defs_of(lp.id, "bootstrap_indices") if d.kind == "assign"]
-    ok = len(bd) == 1 and ast.unparse(bd[0].value) == "bootstrap(model.n_ensemble, train_size, n_samples, bootstrap_key)" and lp.id not in cfg.enclosing_loops(bd[0].node)
+    okb = False
+    if len(bd) == 1 and isinstance(bd[0].value, ast.Call) and repo.resolve_expr(mi, bd[0].value.func) == PE + "bootstrap":
+        bb = bind_call(repo.func(PE + "bootstrap"), bd[0].value)
+        bp = positional_params(repo.func(PE + "bootstrap"))
+        gotb = [nf.poly(bb[p_], sc, bd[0].node).canon() if p_ in bb and not isinstance(bb[p_], list) else None for p_ in bp[:3]]
+        wantb = [nf.poly(parse_expr(t_), sc, bd[0].node).canon() for t_ in ("model.n_ensemble", "train_size", "len(X)")]
+        okb = gotb == wantb
+    ok = okb and lp.id not in cfg.enclosing_loops(bd[0].node)
     ck.ob("R4-bootstraps", q, "bootstrap-once", ok, f"bootstrap_indices = {ast.unparse(bd[0].value) if bd else None}", "" if ok else "the bootstrap sample of each member is drawn once, before the epochs", loc(mi, f))
     # train_epoch scan body
     q = PE + "train_epoch"
     f = repo.func(q)
     body = next((n for n in ast.walk(f) if isinstance(n, ast.FunctionDef) and n is not f), None)
     ck.need(body is not None, f"{q}: scan body not found")
-    txt = "\n".join(ast.unparse(s) for s in body.body)
-    ok = "nnx.value_and_grad(gaussian_ensemble_loss, argnums=0)(model, X[batch], Y[batch])" in txt and "optimizer.update(model, grads)" in txt
+    from .c05 import grad_sites
+    body._module = f._module
+    bcfg = nf.cfg_of(body)
+    bparams = positional_params(body)
+    sites = grad_sites(repo, body, f._module)
+    if len(sites) != 1 or len(bparams) < 4:
+        raise AnalysisError(f"{q}: scan body has {len(sites)} gradient applications / {len(bparams)} parameters (unrecognised idiom)")
+    st_ = sites[0]
+    bsc2 = Scope(bcfg, f._module, {p_: Poly.atom(p_, {p_}, {p_}) for p_ in bparams}, q)
+    try:
+        bat = bcfg.node_of(st_["app"]).id
+    except KeyError:
+        raise AnalysisError(f"{q}: gradient application not found in the scan body's flow graph")
+    a_ = [nf.poly(x, bsc2, bat).canon() for x in st_["app"].args]
+    Xp, Yp, Bp = bparams[1], bparams[2], bparams[3]
+    lossq = repo.resolve_expr(f._module, st_["loss"]) if isinstance(st_["loss"], (ast.Name, ast.Attribute)) else None
+    ok = lossq == PE + "gaussian_ensemble_loss" and st_["argnums"] == [0] and len(a_) >= 3 and a_[1] == f"{Xp}[{Bp}]" and a_[2] == f"{Yp}[{Bp}]"
     ck.ob("R4-bootstraps", q, "member-batches", ok, "loss(model, X[batch], Y[batch]) with batch of shape (n_ensemble, batch_size)", "" if ok else "each scan step must evaluate member i on X[batch[i]], Y[batch[i]]", loc(f._module, body))
     decs = [ast.unparse(d) for d in body.decorator_list]
     ok = any("in_axes=(nnx.Carry, None, None, 0)" in d for d in decs)
